@@ -204,14 +204,53 @@ def run(chk):
                 fc = new_cell()
                 st0.mem[fc] = Opaque("formatter", ((),))
                 outs = it.call_body(b, [Ptr(c, ()), Ptr(fc, ())], st0, {})
-                o, v, d = single_return(outs)
-                if o is not None:
+                red = B.bxor if sep == " ^ " else B.bor
+                from ..sopmodel import val_atom
+                v, d = PROVED, ""
+                nret = 0
+                for o in outs:
+                    s_, w_ = pc_status(o.pc)
+                    if s_ == "unsat":
+                        continue
+                    if o.kind != "return" or s_ != "sat":
+                        v, d = UNDECIDED, "path not decided"
+                        break
+                    nret += 1
+                    zeros = {nm for nm in names if w_.get("is_zero(%s)" % nm)}
+                    ones = {nm for nm in names if w_.get("is_one(%s)" % nm)}
+
+                    def val(nm):
+                        return ZERO if nm in zeros else (ONE if nm in ones else val_atom(nm, "m"))
+                    obj = ZERO
+                    for nm in names:
+                        obj = red(obj, val(nm))
                     txt = text_of(it.read_ptr(o.state, Ptr(fc, ())).data[0])
-                    want = sep.join("<%s>" % nm for nm in names) if L else "0"
-                    if txt == want:
-                        v, d = PROVED, ""
+                    if txt == "0":
+                        den = ZERO
+                    elif txt == "1":
+                        den = ONE
                     else:
-                        v, d = REFUTED, "%s of terms %s prints %r, expected %r" % (short, names, txt, want)
+                        parts = txt.split(sep)
+                        if not txt or any(not re.match(r"^<c\d+>$", p_) for p_ in parts):
+                            v, d = REFUTED, "%s of terms %s%s prints %r, which is not a formula over its terms joined by %r" % (short, names, (" (zero terms: %s)" % sorted(zeros)) if zeros else "", txt, sep)
+                            break
+                        den = ZERO
+                        for p_ in parts:
+                            den = red(den, val(p_[1:-1]))
+                        order = [p_[1:-1] for p_ in parts]
+                        if order != [nm for nm in names if nm in order]:
+                            v, d = REFUTED, "terms are printed out of order: %r" % txt
+                            break
+                    if den != obj:
+                        v, d = REFUTED, "%s of terms %s prints %r, which denotes %s while value() is %s" % (short, names, txt, B.describe(den), B.describe(obj))
+                        break
+                    if not zeros and not ones:
+                        want = sep.join("<%s>" % nm for nm in names) if L else "0"
+                        if txt != want:
+                            v, d = REFUTED, "%s of terms %s prints %r, expected %r" % (short, names, txt, want)
+                            break
+                if v == PROVED and nret == 0:
+                    v, d = UNDECIDED, "no returning path"
             except Undecided as e:
                 v, d = UNDECIDED, e.cause
             chk.add("C16.J", key, v, d, where=where_of(b), sample=dict(obligation=key, verdict=v) if L == 2 else None)
